@@ -235,13 +235,21 @@ def gemini(ctx, base, logi, reqs, impls, metas):
     for n, z in st.items():
         if n.endswith("_block"):
             par = st[parents[n[0]]]
-            if not set(sites(z)) <= set(sites(par)):
+            root = z
+            while getattr(root, "parent", None) is not None:
+                root = root.parent
+            if not set(sites(z)) <= set(sites(par)) or root is z or not (root == par):
+                # a view object (directly or through other views) of the documented zone, not merely a grid on its sites
                 ctx.fail(case, f"{n} is not a view of {parents[n[0]]}")
             if z.shape != (ic["code_size"], ic["logical_rows"]):
                 ctx.fail(case, f"{n} has shape {z.shape}, documented block size is (code_size, logical_rows) = "
                                f"({ic['code_size']}, {ic['logical_rows']})")
     for n in ("AOM0_block", "AOM1_block"):
-        if not set(sites(sg[n])) <= set(sites(sg["aom_sites"])) or sg[n].shape != (ic["code_size"], ic["logical_rows"]):
+        root = sg[n]
+        while getattr(root, "parent", None) is not None:
+            root = root.parent
+        if (not set(sites(sg[n])) <= set(sites(sg["aom_sites"])) or sg[n].shape != (ic["code_size"], ic["logical_rows"])
+                or root is sg[n] or not (root == sg["aom_sites"])):
             ctx.fail(case, f"{n} is not a code_size x logical_rows view of aom_sites")
     for side, off in (("L", 0), ("R", 1)):
         for b in (0, 1):
